@@ -140,12 +140,17 @@ def module_case(arg):
                     # ... or some other field of the structure (a tag deciding the leaf's presence) is a narrow signed
                     # enum holding a negative value, which the implementation reads zero-extended
                     mech = "signed-enum-narrow-field-zero-extended"
-                elif leaf.get("target_kind") == "bcd" and leaf["kind"] == "vint":
+                elif leaf["kind"] == "vint" and leaf.get("target_kind") in ("bcd", "uint", "int") and not exp["could"] \
+                        and r.get("could") == "1":
+                    # the generated CouldWriteValue / TryToWrite of an add/subtract virtual field cast the inverse
+                    # (c - v, v - c, v + c) to the destination view's C++ ValueType BEFORE asking the destination
+                    # whether it could hold it: an inverse outside that type wraps into range and is accepted
                     cont = 8
                     while cont < exp["nbits"]:
                         cont *= 2
-                    if exp["tval"] < 0 or exp["tval"] >= (1 << cont):
-                        mech = "transform-virtual-over-bcd-narrows-value"
+                    lo_c, hi_c = (-(1 << (cont - 1)), (1 << (cont - 1)) - 1) if leaf.get("target_kind") == "int" else (0, (1 << cont) - 1)
+                    if not (lo_c <= exp["tval"] <= hi_c):
+                        mech = "transform-virtual-narrows-inverse-to-destination-value-type"
                 out["viol"].append({"mech": mech, "what": "struct %s params %r bytes %s leaf %s value %d: %s" % (
                     s.name, params, data.hex(), ".".join(str(x) for _k, x in leaf["path"]), eff,
                     "; ".join("%s expected %s got %s" % p for p in problems)),
